@@ -264,3 +264,16 @@ def jobs(tier, seed):
     for warm in (False, True):
         jobs.append({"harness": "reset_rules", "params": {"cfg": cfg, "warm": warm}, "weight": 8, "cpu_cap": 2400, "wall_cap": 3600})
     return jobs
+
+
+def thorough_extra(seed):
+    jobs = []
+    cfg = dict(S.JS, options={"typographer": True}, enable=["replacements", "smartquotes"])
+    ranges = [(0, 6), (7, 11), (12, 17), (18, 18), (19, 21), (22, 25), (26, 29), (30, 33), (34, 38), (39, 42)]
+    for lo, hi in ranges:
+        jobs.append({"harness": "inject", "params": {"cfg": cfg, "lo": lo, "hi": hi, "warm": False}, "weight": 10, "cpu_cap": 3000, "wall_cap": 4000})
+        # one free character in the document (position 14: inside the nested list item)
+        jobs.append({"harness": "inject", "params": {"cfg": cfg, "lo": lo, "hi": hi, "warm": True, "free_pos": 14}, "weight": 40, "cpu_cap": 9000,
+                     "wall_cap": 10000, "path_cap": 120})
+    jobs.append({"harness": "reset_rules", "params": {"cfg": S.CM, "warm": True}, "weight": 8, "cpu_cap": 3000, "wall_cap": 4000})
+    return jobs
